@@ -155,6 +155,11 @@ pub fn judge_linear(prop: &str, isa: Isa, acc: &mut Acc, c: &LinCase, cfg: &EmuC
     let r = match emulate(isa, &asm.text, c.args, cfg) {
         Ok(r) => r,
         Err(e) => {
+            // an instruction form the emulator does not know: on x86-64 the host CPU can still judge
+            // the value comparison
+            if isa == Isa::X86 && prop == "C06" {
+                return native_fallback(acc, &asm, c, &reference, &e);
+            }
             acc.infra(format!("{}: emulator cannot parse the text: {e}", isa.name()));
             return false;
         }
@@ -209,6 +214,65 @@ pub fn judge_linear(prop: &str, isa: Isa, acc: &mut Acc, c: &LinCase, cfg: &EmuC
         "C13" => r.stats.ext_calls > 0 || isa != Isa::Rv,
         _ => r.stats.instructions > 30,
     }
+}
+
+/// x86-64 text the emulator cannot parse: assemble, link and run it on the host and compare
+/// standard output and exit status with the reference machine
+fn native_fallback(acc: &mut Acc, asm: &Asm, c: &LinCase, reference: &crate::trace::Outcome, why: &str) -> bool {
+    use crate::native::{self, BuildErr, Workdir};
+    thread_local! {
+        static WD: std::cell::RefCell<Option<Workdir>> = const { std::cell::RefCell::new(None) };
+    }
+    let Ok(end) = reference.end.clone() else { return false };
+    acc.count("x86_64_native_fallback_runs");
+    WD.with(|wd| {
+        let mut wd = wd.borrow_mut();
+        let wd = wd.get_or_insert_with(|| Workdir::new(&format!("c06-fallback-{}", std::process::id())));
+        let exe = match wd.build_x86(&asm.text, asm.nargs, None) {
+            Ok(e) => e,
+            Err(BuildErr::Assemble(m)) => {
+                acc.discard(&format!("x86-64 text neither parsed by the emulator ({}) nor accepted by GNU as (C14's business): {}", why.chars().take(60).collect::<String>(), m.lines().next().unwrap_or("")));
+                return false;
+            }
+            Err(BuildErr::Infra(m)) => {
+                acc.infra(format!("native fallback: {m}"));
+                return false;
+            }
+        };
+        let mut cmd = std::process::Command::new(&exe);
+        for a in c.args {
+            cmd.arg(a.to_string());
+        }
+        let r = native::run_exe(&mut cmd, std::time::Duration::from_secs(20));
+        let _ = std::fs::remove_file(&exe);
+        let Ok(r) = r else { return false };
+        if r.timed_out {
+            acc.discard("native fallback run exceeded the watchdog (inconclusive)");
+            return false;
+        }
+        let want = reference.render();
+        if r.stdout != want || r.status != Some((end & 0xff) as i32) {
+            let mut j = J::obj().with("kind", J::s("linear-backend")).with("isa", J::s("x86_64")).with("args", args_json(c.args)).with("origin", J::s(c.origin.clone()));
+            if let Some(s) = c.src {
+                j.set("src", J::s(s));
+            }
+            acc.violation(
+                "C06:x86_64:native-trace",
+                format!(
+                    "x86_64 (native run; the emulator does not know an instruction form: {}): stdout/exit {:?}/{:?} (signal {:?}) differs from the reference {:?}/{}",
+                    why.chars().take(80).collect::<String>(),
+                    String::from_utf8_lossy(&r.stdout).chars().take(60).collect::<String>(),
+                    r.status,
+                    r.signal,
+                    String::from_utf8_lossy(&want).chars().take(60).collect::<String>(),
+                    end & 0xff
+                ),
+                j,
+            );
+            return false;
+        }
+        true
+    })
 }
 
 pub fn run(ctx: &Ctx, acc: &mut Acc) {
